@@ -18,6 +18,26 @@ theorem pointer_invariant (c : Cfg) (ops : List Op) : Inv (run c {} ops) := by
     | cons op rest ih => exact fun s h => ih _ (inv_step c s op h)
   exact this {} ⟨Or.inl rfl, fun h => absurd rfl h⟩
 
+/-- **a start request binds to the current player or is refused**, at any position of the game: after `modeStart` the
+pointer is unchanged (no game, or the mode already runs) or it points at the player who is up *now* — never at the
+player of an earlier turn; and no other player's dictionary is touched by it. -/
+theorem mode_start_binds_current (c : Cfg) (s : St) :
+    ((step c s .modeStart).1 = s ∨ (step c s .modeStart).1.dev = some s.cur) ∧
+    (step c s .modeStart).1.cur = s.cur ∧
+    ∀ q, q ≠ s.cur → (step c s .modeStart).1.players[q]? = s.players[q]? := by
+  simp only [step]
+  split
+  · exact ⟨Or.inl rfl, rfl, fun _ _ => rfl⟩
+  · split
+    · exact ⟨Or.inl rfl, rfl, fun _ _ => rfl⟩
+    · exact ⟨Or.inr (modeStart_dev _ _ _), modeStart_cur _ _ _, fun q hq => modeStart_other _ _ _ _ hq⟩
+
+/-- when a turn ends the pointer is dropped or handed to the player who is up next — also when a start request arrived
+after the ball had ended but before the turn ended (`drainPre`): no mode keeps running bound to the previous player. -/
+theorem turn_end_rebinds (c : Cfg) (s : St) (h : Inv s) (op : Op) (_hop : op = .drain ∨ op = .drainPre) :
+    (step c s op).1.dev = none ∨ (step c s op).1.dev = some (step c s op).1.cur :=
+  (inv_step c s op h).1
+
 /-- **frame**: any request — variable set/add, any control event of any device, shot-group rotation, add player, ball drain with or without extra ball — leaves
 the whole dictionary (variables *and* stored device state) of every player who is not up before or after it unchanged. -/
 theorem frame (c : Cfg) (s : St) (op : Op) (h : Inv s) (q : Nat) (hq : q < s.players.length)
